@@ -10,6 +10,7 @@ import MediaSan.Lemmas.BitTrace
 import MediaSan.Lemmas.BufOnly
 import MediaSan.Lemmas.BitBridge
 import MediaSan.Lemmas.BufLoop
+import MediaSan.Lemmas.CodeHeight
 import MediaSan.Generated.Vp8lTables
 namespace MediaSan.Props.C19
 open MediaSan MediaSan.Vp8l
@@ -206,6 +207,17 @@ theorem C19_pixel_loop_buffered (g : Group) (hg : g.ready) (cache : Option Nat) 
   cases hr : pixelLoopBuf g cache width total chk fuel idx acc s with
   | error e => rw [hr] at key; exact key
   | ok x => obtain ⟨a, s'⟩ := x; rw [hr] at key; exact key
+
+/-- the hypothesis `g.ready` of `C19_pixel_loop_buffered` holds for EVERY prefix-code group the validator model reads,
+    from every payload and bit position: each of the five codes is a finalized trie (`compile_read_tree`) no deeper than
+    its `longest_code_len` (an insertion deepens the trie by at most the code's length; a single-symbol code is a
+    leaf).  (`BSafe m Q`: `m` returns a value with `Q`, or a non-panic error.) -/
+theorem C19_groups_ready (cfg : LCfg) (cache : Option Nat) : BSafe (readGroup cfg cache) Group.ready :=
+  readGroup_ready cfg cache
+
+/-- every code `CanonicalHuffmanTree::new` returns is within its `longest_code_len` -/
+theorem C19_code_height (lens : List (Nat × Nat)) (lenient : Bool) (c : Code) (h : newCode lens lenient = .ok c) :
+    c.tree.height ≤ c.longest := newCode_height lens lenient c h
 
 -- Non-vacuity: a ready group, and the buffered loop really running over a 16-byte buffer (two literal pixels of a
 -- two-symbol green code, then the sub-image is complete)
